@@ -546,6 +546,7 @@ def sc_valid(name, exprs, seed):
         return runs
 
     meta = prepare_runs()
+    cache = {}
     slots = []  # yields are derived from the seed per (expression, cer, key): too many awaitables to enumerate
 
     def fn(sc, yields_unused, vec_seed=0):
@@ -575,6 +576,15 @@ def sc_valid(name, exprs, seed):
                     self[tag] = [0 if vec_seed == 0 else vr.randint(0, 3)]
                 return self[tag]
 
+        if "alone" not in cache:  # oracle: every is_valid_expression call on its own, nothing else running
+            cache["alone"] = []
+            for xi, e in enumerate(exprs):
+                H.reset(yields={}, cer_tags=tags)
+                a = H.run(lambda xi=xi, e=e: is_valid_expression(e, make_setter(xi)))
+                cache["alone"].append(a[1][0] if a[0] == "ok" else a[1])
+            tags.clear()
+            keep.clear()
+            counters.clear()
         H.reset(yields=LazyYields(), cer_tags=tags)
 
         async def main():
@@ -582,6 +592,8 @@ def sc_valid(name, exprs, seed):
 
         out = H.run(main)
         leaks = [e for e in H.log if e[2] != e[3]]
+        if out[0] == "ok" and [r[0] for r in out[1]] != cache["alone"]:
+            leaks.append(("not-own", "verdicts alone", cache["alone"], "concurrently", [r[0] for r in out[1]]))
         # model case: per expression the cers (as rc dicts, in the order the tasks were created), the yields, the
         # outcome of evaluating with each cer ALONE (sequentially, nothing else running)
         runs_terms, obs_runs = [], []
@@ -836,6 +848,9 @@ def run(ctx):
     for i in bad[:15]:
         name, vec, term, obs = meta[i]
         ctx.broke("correspondence mismatch: model (den / explicit schedules) and ahbicht differ", json.dumps({"scenario": name, "yields": vec, "skeleton": term[:600], "observed": repr(obs)[:600]}, ensure_ascii=False))
+    ctx.notes["duplicate_keys"] = ("ahbicht passes key lists with repetitions to the gather+zip sites (`[1] U [1]` calls evaluate_1 twice); dict(zip(keys, results)) keeps the result of the LAST "
+                                   "occurrence at the position of the first, for every completion order (scenarios dup-rc, dup-rc2, dup-hints, dup-hints2, dup-fc with occurrence-dependent answers; "
+                                   "model: dict_zip, theorem C12_pairing_dict_zip)")
     ctx.notes["correspondence"] = {"model_cases": n, "mismatches": len(bad), "implementation_runs": n_runs,
                                    "scenarios": len(S) + len(valid_scenarios(ctx)), "exhaustive_yield_vectors": [f"{a}: {{0..{2 if ctx.quick else 3}}}^{b} = {c}" for a, b, c in exhaustive][:80]}
     ctx.add_eval(n_runs + n)
